@@ -2,3 +2,4 @@ import PbProofs.FastLen
 import PbProofs.FastLenPrev
 import PbProofs.Crop
 import PbProofs.Freq
+import PbProofs.Concat
